@@ -57,7 +57,7 @@ Definition md_bounds (st : dstate) (buf : list byte) (r : dres) (st' : dstate) (
   end.
 
 (* states the decoder produces: a held message is exactly the decoded data *)
-Definition dwf (st : dstate) : Prop := forall c, dmsg st = Some c -> c = dlen st.
+Definition dwf (st : dstate) : Prop := forall c, dmsg st = Some c -> c = dlen st /\ dcode st = 0.
 
 Theorem dec_regular_touches v st buf frags peek : dwf st ->
   let '(r, st', buf') := dec_regular v st buf frags peek in
@@ -76,10 +76,11 @@ Proof.
                                 mkd (dcode st) (dpos8 st) (dcurr st) (dpos st) (dlen st - c) None)
          | None => Some (dpos st, dlen st, st) end) = Some x ->
          let '(done, mlen, st1) := x in dl <= done + mlen /\ dcurr st1 = dcurr st /\ dpos st1 <= done /\
-                                        (dl <= dpos st1 + mlen \/ mlen = 0)).
+                                        (dl <= dpos st1 + mlen \/ (mlen = 0 /\ dcode st1 = 0))).
   { intros [[done mlen] st1]. destruct (dmsg st) as [c|] eqn:Em.
     - destruct peek; [discriminate|]. intros H. inversion H; subst. cbn [dcurr dpos]. unfold dl.
-      rewrite (Hwf c Em). repeat split; lia.
+      destruct (Hwf c Em) as [Hc0 Hcode0]. rewrite Hc0. cbn [dcode].
+      split; [lia|]. split; [reflexivity|]. split; [lia|]. right. split; [lia|assumption].
     - intros H. inversion H; subst. unfold dl. repeat split; lia. }
   destruct (match dmsg st with
          | Some c => if peek then None
@@ -89,18 +90,19 @@ Proof.
   specialize (Hprev _ eq_refl). cbn beta iota in Hprev. destruct Hprev as (Hw1 & Hc1 & Hd1 & He1).
   (* alignment *)
   set (proc0 := dcurr st - dl) in *.
-  assert (Hal : forall x, (if mlen =? 0 then
+  assert (Hal : forall x, (if (mlen =? 0) && (dcode st1 =? 0) then
              if peek then None else
              let '(off, rest) := locate (if peek then firstn 1 frags else frags) dl in
              let post := align_post off rest proc0 in
              Some (dl + post, proc0 - post, mkd (dcode st1) (dpos8 st1) (dcurr st1) (dl + post) (dlen st1) (dmsg st1))
            else Some (done, proc0, st1)) = Some x ->
          let '(done2, proc2, st2) := x in dl <= done2 + mlen /\ dl <= dpos st2 + mlen /\ dpos st2 <= done2).
-  { intros [[done2 proc2] st2]. destruct (Nat.eqb_spec mlen 0).
+  { intros [[done2 proc2] st2]. destruct (Nat.eqb_spec mlen 0) as [Em0|Em0]; cbn [andb]; [destruct (Nat.eqb_spec (dcode st1) 0)|].
     - destruct peek; [discriminate|].
       destruct (locate frags dl) as [off rest]. intros H. inversion H; subst. cbn [dcode dpos]. repeat split; lia.
+    - intros H. inversion H; subst. repeat split; lia.
     - intros H. inversion H; subst. repeat split; lia. }
-  destruct (if mlen =? 0 then
+  destruct (if (mlen =? 0) && (dcode st1 =? 0) then
              if peek then None else
              let '(off, rest) := locate (if peek then firstn 1 frags else frags) dl in
              let post := align_post off rest proc0 in
@@ -162,7 +164,7 @@ Proof.
     - intros H. inversion H; subst. assumption. }
   destruct (match dmsg st with Some c => _ | None => _ end) as [[[done mlen] st1]|]; [|assumption].
   specialize (Hprev _ eq_refl). cbn beta iota in Hprev.
-  assert (Hal : forall x, (if mlen =? 0 then
+  assert (Hal : forall x, (if (mlen =? 0) && (dcode st1 =? 0) then
              if peek then None else
              let '(off, rest) := locate (if peek then firstn 1 frags else frags) (dpos st + dlen st) in
              let post := align_post off rest (dcurr st - (dpos st + dlen st)) in
@@ -170,11 +172,12 @@ Proof.
                    mkd (dcode st1) (dpos8 st1) (dcurr st1) (dpos st + dlen st + post) (dlen st1) (dmsg st1))
            else Some (done, dcurr st - (dpos st + dlen st), st1)) = Some x ->
          let '(done2, proc2, st2) := x in dmsg st2 = None).
-  { intros [[done2 proc2] st2]. destruct (mlen =? 0).
+  { intros [[done2 proc2] st2]. destruct (mlen =? 0); cbn [andb]; [destruct (dcode st1 =? 0)|].
     - destruct peek; [discriminate|].
       destruct (locate frags (dpos st + dlen st)) as [off rest]. intros H. inversion H; subst. assumption.
+    - intros H. inversion H; subst. assumption.
     - intros H. inversion H; subst. assumption. }
-  destruct (if mlen =? 0 then _ else _) as [[[done2 proc2] st2]|]; [|intros c Hc; rewrite Hprev in Hc; discriminate].
+  destruct (if (mlen =? 0) && (dcode st1 =? 0) then _ else _) as [[[done2 proc2] st2]|]; [|intros c Hc; rewrite Hprev in Hc; discriminate].
   specialize (Hal _ eq_refl). cbn beta iota in Hal.
   assert (Hn : dwf st2) by (intros c Hc; rewrite Hal in Hc; discriminate).
   destruct (_ <? _); [assumption|].
@@ -182,8 +185,8 @@ Proof.
     [|assumption].
   destruct (code =? 0).
   - intros c Hc. cbn [dmsg] in Hc. rewrite Hal in Hc. discriminate.
-  - destruct (lr _); intros c Hc; cbn [dmsg dlen] in *;
-      first [ inversion Hc; reflexivity | rewrite Hal in Hc; discriminate ].
+  - destruct (lr _); intros c Hc; cbn [dmsg dlen dcode] in *;
+      first [ inversion Hc; split; reflexivity | rewrite Hal in Hc; discriminate ].
 Qed.
 
 (* the complete decoder entry (COBS/R wrapper included) *)
@@ -212,5 +215,5 @@ Proof.
       assert (E : forall l : list byte, skipn (S (dcurr st')) l = skipn 1 (skipn (dcurr st') l)).
       { intros l. rewrite skipn_skipn'. f_equal. lia. }
       rewrite (E buf'), (E buf), Hsk. reflexivity.
-  - intros c Hc. cbn [dmsg dlen] in *. inversion Hc. reflexivity.
+  - intros c Hc. cbn [dmsg dlen dcode] in *. inversion Hc. split; reflexivity.
 Qed.
